@@ -24,6 +24,11 @@ func (it *Iterator) SeekToFirst() {
 	it.mu.Lock()
 	defer it.mu.Unlock()
 
+	it.seekToFirst()
+}
+
+// seekToFirst is SeekToFirst for callers that already hold it.mu
+func (it *Iterator) seekToFirst() {
 	// Reset error state
 	it.err = nil
 
@@ -138,8 +143,9 @@ func (it *Iterator) Next() bool {
 	defer it.mu.Unlock()
 
 	if !it.initialized {
-		it.SeekToFirst()
-		return it.Valid()
+		// it.mu is held and not reentrant: use the unlocked helpers
+		it.seekToFirst()
+		return it.dataBlockIter != nil && it.dataBlockIter.Valid()
 	}
 
 	if it.dataBlockIter == nil {
